@@ -652,32 +652,7 @@ Proof.
   - destruct (lerr_exact o); [|reflexivity]. destruct (H2 eq_refl) as [e He]. discriminate He.
 Qed.
 
-(* ---------- histories ----------
-   sim_step: the step is inside the model and both sides produced a result of the same shape:
-     L1 LNew      with L0 OkNew,
-     L1 LUpd      with L0 OkUnit,
-     L1 LErrUpd   with L0 Err _   (raised after a partial effect: both sides keep the effect),
-     L1 LErr      with L0 Err _   (raised without effect: both sides keep their state).
-   Everything else -- L0 OutOfModel, L1 LSkip, or results of different shapes -- is false. *)
-Definition sim_step (w : world) (p : list ltable) (o : op) : bool :=
-  match lstep_all p (nextfam w) o, snd (step w o) with
-  | LNew _, OkNew | LUpd _ _, OkUnit | LErrUpd _ _, Err _ | LErr, Err _ => true
-  | _, _ => false
-  end.
-
-Fixpoint sim_ok (w : world) (p : list ltable) (ops : list op) : bool :=
-  match ops with
-  | [] => true
-  | o :: r => sim_step w p o && sim_ok (fst (step w o)) (lapply p (lstep_all p (nextfam w) o)) r
-  end.
-
-(* the family counter after an L1 history *)
-Fixpoint lfam_from (ops : list op) (p : list ltable) (nf : nat) : nat :=
-  match ops with
-  | [] => nf
-  | o :: r => let x := lstep_all p nf o in lfam_from r (lapply p x) (next_fam nf o x)
-  end.
-
+(* ---------- histories: sim_step, sim_ok and lfam_from are defined in Model/CoreRun.v ---------- *)
 Lemma next_fam_spec p nf o :
   next_fam nf o (lstep_all p nf o)
   = match lstep_all p nf o with
